@@ -24,12 +24,14 @@ def seed_dir(pid, x):
     return f"{V}/seeded/{pid}_{x}"
 
 def import_seed(pid, x):
-    # first wave: /tmp/wt_<PID>/SEEDED/{A,B}; second wave: /tmp/w2_<PID>/SEEDED/{A,B} stored as C, D; third wave /tmp/w3_<PID> stored as E, F
+    # first wave: /tmp/wt_<PID>/SEEDED/{A,B}; second wave: /tmp/w2_<PID>/SEEDED/{A,B} stored as C, D; third wave /tmp/w3_<PID> stored as E, F; fourth wave /tmp/w4_<PID> stored as G, H
     src = f"/tmp/wt_{pid}/SEEDED/{x}"
     if x in ("C", "D"):
         src = f"/tmp/w2_{pid}/SEEDED/{'A' if x == 'C' else 'B'}"
     if x in ("E", "F"):
         src = f"/tmp/w3_{pid}/SEEDED/{'A' if x == 'E' else 'B'}"
+    if x in ("G", "H"):
+        src = f"/tmp/w4_{pid}/SEEDED/{'A' if x == 'G' else 'B'}"
     d = seed_dir(pid, x)
     os.makedirs(d, exist_ok=True)
     for f in ["patch.diff", "demo.rs", "notes.md"]:
@@ -44,7 +46,7 @@ def validate(pid, x):
     rc, out = sh(f"git -C /repo worktree add --detach {wt} HEAD")
     shutil.copy("/repo/Cargo.lock", wt + "/Cargo.lock")
     m = load_meta(d)
-    m.update({"property": pid, "variant": x, "source": "independent sub-agent working in its own scratch worktree (given only the property text" + (" and one-line descriptions of the earlier changes to avoid)" if x in ("C", "D", "E", "F") else ")")})
+    m.update({"property": pid, "variant": x, "source": "independent sub-agent working in its own scratch worktree (given only the property text" + (" and one-line descriptions of the earlier changes to avoid)" if x in ("C", "D", "E", "F", "G", "H") else ")")})
     res = {}
     rc, out = sh(f"git apply {d}/patch.diff", cwd=wt)
     res["patch_applies_to_repo_head"] = rc == 0
